@@ -541,7 +541,8 @@ void NifFile::SortGraph(NiNode* root, SortState& sortState) {
 
 			if (isRootNode) {
 				// Reorder shapes on root node if order is provided
-				if (sortState.rootShapeOrder.size() == shapeIndices.size()) {
+				if (sortState.rootShapeOrder.size() == shapeIndices.size()
+					&& std::is_permutation(sortState.rootShapeOrder.begin(), sortState.rootShapeOrder.end(), shapeIndices.begin())) {
 					std::vector<uint32_t> newShapeIndices(shapeIndices.size());
 					for (size_t si = 0; si < sortState.rootShapeOrder.size(); si++) {
 						auto it = find(shapeIndices, sortState.rootShapeOrder[si]);
@@ -582,7 +583,8 @@ void NifFile::SortGraph(NiNode* root, SortState& sortState) {
 
 			if (isRootNode) {
 				// Reorder shapes on root node if order is provided
-				if (sortState.rootShapeOrder.size() == shapeIndices.size()) {
+				if (sortState.rootShapeOrder.size() == shapeIndices.size()
+					&& std::is_permutation(sortState.rootShapeOrder.begin(), sortState.rootShapeOrder.end(), shapeIndices.begin())) {
 					std::vector<uint32_t> newShapeIndices(shapeIndices.size());
 					for (size_t si = 0; si < sortState.rootShapeOrder.size(); si++) {
 						auto it = find(shapeIndices, sortState.rootShapeOrder[si]);
